@@ -291,6 +291,7 @@ def run_property(prop, tier, jobs=None, only=None):
     harness_errors = []
     replay_cache = {}
     per_ob = {}
+    tot_ob = {}
     for o in obs:
         r = results[o.name]
         for fl in r["failed"]:
@@ -298,8 +299,9 @@ def run_property(prop, tier, jobs=None, only=None):
             ck = (o.name, json.dumps(rp, sort_keys=True))
             pk = (o.name, fl["what"].split(" [path")[0])
             per_ob[pk] = per_ob.get(pk, 0) + 1
-            if per_ob[pk] > 3 and ck not in replay_cache:
-                fl["replay_skipped"] = "more than 3 counterexamples for the same query; first three replayed"
+            tot_ob[o.name] = tot_ob.get(o.name, 0) + (0 if ck in replay_cache else 1)
+            if (per_ob[pk] > 3 or tot_ob[o.name] > 8) and ck not in replay_cache:
+                fl["replay_skipped"] = "replay budget of this obligation used up (3 per query, 8 per obligation)"
                 continue
             if ck in replay_cache:
                 replay_cache[ck]["also"] = replay_cache[ck].get("also", 0) + 1
